@@ -275,7 +275,8 @@ static void ProcessFile(char const* FileName, LongWord Offset) {
                 FormatError(FileName, getmessage(Num_FormatInvRecordLenMsg));
             }
 
-            doit = FilterOK(InpCPU) && (ValidSegs & (1 << InpSegment));
+            doit = FilterOK(InpCPU) && (ValidSegs & (1 << InpSegment))
+                   && (InpLen >= Gran);
 
             if (doit) {
                 InpStart += Offset;
@@ -822,7 +823,8 @@ static void MeasureFile(char const* FileName, LongWord Offset) {
                 ValidSegs = (1 << SegCode) | (1 << SegData);
             }
 
-            doit = FilterOK(InpCPU) && (ValidSegs & (1 << InpSegment));
+            doit = FilterOK(InpCPU) && (ValidSegs & (1 << InpSegment))
+                   && (Length >= Gran);
 
             if (doit) {
                 Adr += Offset;
